@@ -23,6 +23,7 @@ RULE = "histories enumerated exhaustively to depth D (quick 3, thorough 4); stat
 ASSUMPTIONS = ["snapshots are deep copies into plain data (lists copied), bound values compared by identity", "operations whose arguments the library rejects (ValueError / GraphConfigError) end that branch and are counted, not judged"]
 
 VALS = {}
+WORLD = []  # stack: object list of the world an operation is being applied in (for operations over two objects)
 
 
 def _val(k, i):
@@ -98,7 +99,7 @@ def _run_view(g, h, run_inputs):
     return (r.status.value, tuple(sorted((k, repr(v)) for k, v in r.values.items())), None if r.error is None else type(r.error).__name__)
 
 
-def menu(obj, extra_node):
+def menu(obj, extra_node, world=None):
     from hypergraph import Graph
     from hypergraph.nodes.gate import GateNode
     from hypergraph.nodes.graph_node import GraphNode
@@ -123,6 +124,14 @@ def menu(obj, extra_node):
         if obj.name:
             ops.append(("as_node",))
         ops.append(("run",))
+        if world is not None:
+            me = next(i for i, o in enumerate(world) if o is obj)
+            for j in range(me - 1, -1, -1):
+                other = world[j]
+                # two relatives that BOTH carry bindings, side by side in a new outer graph
+                if isinstance(other, Graph) and other.name and obj.name and set(other.outputs) == set(obj.outputs) and other._bound and obj._bound:
+                    ops.append(("compose_with", j))
+                    break
     else:
         ops.append(("with_name", obj.name + "_r"))
         if obj.inputs:
@@ -152,6 +161,16 @@ def apply(obj, op, extra_node):
         return obj.add_nodes(extra_node)
     if k == "as_node":
         return obj.as_node()
+    if k == "compose_with":
+        from hypergraph import Graph
+
+        other = WORLD[-1][op[1]]
+        outs = list(obj.outputs)
+        na = other.as_node(name="cmp_a").with_outputs({o: o + "_ca" for o in outs})
+        nb = obj.as_node(name="cmp_b").with_outputs({o: o + "_cb" for o in outs})
+        outer = Graph([na, nb], name="cmp_outer")
+        outer.inputs  # noqa: B018 - computing the outer spec must not write into either inner graph
+        return outer
     if k == "with_name":
         return obj.with_name(op[1])
     if k == "with_inputs":
@@ -195,7 +214,11 @@ def play(seed_name, hist, eager):
                 _run_view(recv, w.h, w.run_inputs)
                 res = None
             else:
-                res = apply(recv, op, w.extra)
+                WORLD.append(w.objs)
+                try:
+                    res = apply(recv, op, w.extra)
+                finally:
+                    WORLD.pop()
         except Exception as e:  # noqa: BLE001
             from hypergraph.graph.validation import GraphConfigError
 
@@ -251,7 +274,11 @@ def histories(seed_name, depth, prefix=()):
             try:
                 if op[0] == "run":
                     continue
-                r = apply(w.objs[oi], op, w.extra)
+                WORLD.append(w.objs)
+                try:
+                    r = apply(w.objs[oi], op, w.extra)
+                finally:
+                    WORLD.pop()
                 w.objs.append(r)
             except Exception:  # noqa: BLE001
                 ok = False
@@ -259,7 +286,7 @@ def histories(seed_name, depth, prefix=()):
         if not ok:
             return
         for oi, o in enumerate(w.objs):
-            for op in menu(o, w.extra):
+            for op in menu(o, w.extra, w.objs):
                 hist.append((oi, op))
                 yield from rec(hist)
                 hist.pop()
@@ -278,8 +305,8 @@ def run_shard(shard):
     first = first_ops(seed_name)[s]
     for i, hist in enumerate(histories(seed_name, depth, [first])):
         # quick tier: depth-3 histories are sliced (all depth<=2 histories always run)
-        if tier == "quick" and len(hist) == 3 and (i + seed) % 6 != 0:
-            continue
+        if tier == "quick" and len(hist) == 3 and (i + seed) % 6 != 0 and hist[-1][1][0] != "compose_with":
+            continue  # (two-object operations need two earlier steps: always kept)
         acc.evaluations += 1
         acc.traces += 1
         acc.transitions += len(hist)
